@@ -7,7 +7,7 @@
    Partial: CPU time itself is outside any Gallina model. *)
 From Coq Require Import ZArith List String Bool.
 From Hexital Require Import Base.Prelude Base.Num Model.Manager Model.Candle Model.Readings Model.Engine
-  Spec.Steppers Proofs.SpecGeneric Proofs.EngineProofs Proofs.WorkProofs.
+  Spec.Steppers Proofs.SpecGeneric Proofs.EngineProofs Proofs.WorkProofs Proofs.DataSlot Proofs.DataInst Proofs.DataThms.
 Local Open Scope Z_scope.
 
 Theorem C07_state_bounded_by_window :
@@ -38,3 +38,20 @@ Theorem C07_one_reading_per_appended_candle_leaf :
   = Ok (List.length new, r).
 Proof. intros O I calc HC cs new r Hc Hl Hf Hr. eapply append_steps; eassumption. Qed.
 Print Assumptions C07_one_reading_per_appended_candle_leaf.
+
+(* the same count for the indicators that keep their state in one managed helper series (VWAP,
+   StandardDeviation, RSI; see C01_schedule_independence_data_series_indicators): calculate() is
+   the instrumented loop, and after k candles are appended to a calculated indicator with two or
+   more candles of history it makes exactly k _calculate_reading invocations (each of which writes
+   the helper's slot of its own candle and looks at a bounded window), whatever the length of the
+   history *)
+Theorem C07_one_reading_per_appended_candle_data_series :
+  forall (O : NumOps) (I : ind O) (key : string), data_node O I key -> data_kind O I key ->
+  forall (ds new : list (cd (payload O))) (st r : store O), Forall (fresh_data O I) ds ->
+  calculate O I ds = Ok st -> (2 <= List.length st)%nat -> Forall (fresh_data O I) new ->
+  calculate O I (st ++ new) = Ok r ->
+  loop_steps O I 13 (zrange (Z.of_nat (find_calc_index O I (st ++ new))) (zlen (st ++ new))) (st ++ new) = Ok (List.length new, r) /\
+  calculate O I (st ++ new) =
+    ('(_, r') <- loop_steps O I 13 (zrange (Z.of_nat (find_calc_index O I (st ++ new))) (zlen (st ++ new))) (st ++ new) ;; Ok r').
+Proof. exact data_one_reading_per_appended_candle. Qed.
+Print Assumptions C07_one_reading_per_appended_candle_data_series.
